@@ -32,10 +32,26 @@ pub struct ThLine {
     pub cd: Vec<i64>,
 }
 
+/// 2^e exactly, down to the smallest subnormal number (`powi` with a negative exponent computes a
+/// reciprocal and loses everything below 2^-1023)
+fn pow2(e: i32) -> f64 {
+    if e > 1023 {
+        f64::INFINITY
+    } else if e >= -1022 {
+        f64::from_bits(((e + 1023) as u64) << 52)
+    } else if e >= -1074 {
+        f64::from_bits(1u64 << (e + 1074))
+    } else {
+        0.0
+    }
+}
+
 fn judge<T: Sc>(idx: usize, l: &ThLine, rep: &mut Report) {
     let (n, m) = (l.n, l.m);
     let s = l.y[0].len();
-    let phi = DMatrix::from_fn(n, m, |i, j| if i == j { T::of64((j + 1) as f64) } else { T::zero() });
+    // rows whose weight 2^-k is a subnormal number carry model values and observations larger by 2^(k-10)
+    let comp = |i: usize| -> f64 { if i < m && l.ks[i] > 60 { pow2(l.ks[i] - 10) } else { 1.0 } };
+    let phi = DMatrix::from_fn(n, m, |i, j| if i == j { T::of64((j + 1) as f64 * comp(i)) } else { T::zero() });
     let table = Arc::new(Table {
         n,
         m,
@@ -46,15 +62,15 @@ fn judge<T: Sc>(idx: usize, l: &ThLine, rep: &mut Report) {
             dphi: vec![DMatrix::from_element(n, m, T::zero())],
         }],
     });
-    let w: Vec<T> = (0..n).map(|i| if i < m { T::of64((2.0f64).powi(-l.ks[i])) } else { T::one() }).collect();
-    let y = DMatrix::from_fn(n, s, |i, c| T::of64(l.y[i][c] as f64));
+    let w: Vec<T> = (0..n).map(|i| if i < m { T::of64(pow2(-l.ks[i])) } else { T::one() }).collect();
+    let y = DMatrix::from_fn(n, s, |i, c| T::of64(l.y[i][c] as f64 * comp(i)));
     let eps: Option<T> = if l.thr.kind == "default" {
         None
     } else if l.thr.kind == "zero" {
         Some(T::of64(if l.thr.neg { -0.0 } else { 0.0 }))
     } else {
         // (2^-1050 is a subnormal f64 and becomes 0 in f32, 2^-140 is a subnormal f32)
-        Some(T::of64((2.0f64).powi(-l.thr.u) * if l.thr.neg { -1.0 } else { 1.0 }))
+        Some(T::of64(pow2(-l.thr.u) * if l.thr.neg { -1.0 } else { 1.0 }))
     };
     // C11: the parallel flavour applies the same threshold as the sequential one
     {
@@ -74,7 +90,7 @@ fn judge<T: Sc>(idx: usize, l: &ThLine, rep: &mut Report) {
     // C06: the weighted problem is the unweighted problem on row-scaled model and data - under the
     // DEFAULT threshold too (the threshold is absolute: it does not know about the weights)
     {
-        let phi_w = DMatrix::from_fn(n, m, |i, j| if i == j { w[i] * T::of64((j + 1) as f64) } else { T::zero() });
+        let phi_w = DMatrix::from_fn(n, m, |i, j| if i == j { w[i] * T::of64((j + 1) as f64 * comp(i)) } else { T::zero() });
         let twin_table = Arc::new(Table { n, m, p: 1, entries: vec![TableEntry { a: vec![0], phi: phi_w, dphi: vec![DMatrix::from_element(n, m, T::zero())] }] });
         let y_w = DMatrix::from_fn(n, s, |i, c| w[i] * y[(i, c)]);
         for par in [false, true] {
